@@ -164,7 +164,8 @@ def _run(rep, ctx):
     rep.rule("R15.3", "the rotations are those of the symmetry dataset that also gives the space-group number")
 
     has_scan = any(isinstance(n, (ast.For, ast.While, ast.GeneratorExp, ast.ListComp)) for n in ast.walk(fn))
-    if not has_scan:
+    vdet = [c for c in ast.walk(fn) if isinstance(c, ast.Call) and ext_name(M, FQ, c.func) == "numpy.linalg.det" and c.args]
+    if not has_scan and not vdet:
         table_mode(rep, ctx, M, fn)
         return
     loops = [n for n in fn.body if isinstance(n, ast.For)] + \
@@ -252,6 +253,49 @@ def _run(rep, ctx):
             fire_val, default_val = neg, (not neg)
         verdicts.append(((meaning, c[1], c[2], c[3]), call, {fire_val}, set()))
         default = {default_val}
+    elif vdet:
+        # vectorised form: np.linalg.det of the whole stack of rotations, reduced by all()/any()
+        det = vdet[0]
+        stmt_node = next(n for n, d in fl.cfg.g.nodes(data=True) if d["ast"] is not None and any(sub is det for sub in ast.walk(d["ast"])))
+        iter_expr, iter_at = det.args[0], stmt_node
+        rets = [r for r in ast.walk(fn) if isinstance(r, ast.Return) and r.value is not None]
+        if len(rets) != 1:
+            raise AnalysisError("get_is_chiral (vectorised): expected a single return")
+        e = rets[0].value
+        rat = fl.node_of(rets[0])
+        neg = False
+        while True:
+            if isinstance(e, ast.Call) and isinstance(e.func, ast.Name) and e.func.id == "bool" and len(e.args) == 1:
+                e = e.args[0]
+            elif isinstance(e, ast.UnaryOp) and isinstance(e.op, (ast.Not, ast.Invert)):
+                neg, e = not neg, e.operand
+            elif isinstance(e, ast.Name):
+                vals = [v for d in fl.rd[rat].get(e.id, ()) if d != fl.cfg.entry for v in fl.def_value(d, e.id)]
+                if len(vals) != 1 or vals[0][0] != "expr":
+                    raise AnalysisError(f"get_is_chiral (vectorised): `{e.id}` has no single definition")
+                e = vals[0][1]
+            else:
+                break
+        red, inner = None, None
+        if isinstance(e, ast.Call) and ext_name(M, FQ, e.func) in ("numpy.all", "numpy.any", "numpy.alltrue") and e.args:
+            red, inner = ("any" if ext_name(M, FQ, e.func) == "numpy.any" else "all"), e.args[0]
+        elif isinstance(e, ast.Call) and isinstance(e.func, ast.Attribute) and e.func.attr in ("all", "any") and not e.args:
+            red, inner = e.func.attr, e.func.value
+        elif isinstance(e, ast.Call) and isinstance(e.func, ast.Name) and e.func.id in ("all", "any") and len(e.args) == 1:
+            red, inner = e.func.id, e.args[0]
+        if red is None:
+            raise AnalysisError(f"get_is_chiral (vectorised): result `{norm(e)}` is not an all()/any() reduction of a determinant test")
+        c = classify(M, fl, inner, rat)
+        if c is None:
+            raise AnalysisError(f"get_is_chiral (vectorised): `{norm(inner)}` is not a recognised determinant test")
+        meaning = c[0]
+        if red == "any":
+            fire_val, default_val = (not neg), neg
+        else:
+            meaning = "proper" if meaning == "improper" else ("improper" if meaning == "proper" else meaning)
+            fire_val, default_val = neg, (not neg)
+        verdicts.append(((meaning, c[1], c[2], c[3]), e, {fire_val}, set()))
+        default = {default_val}
     else:
         raise AnalysisError("get_is_chiral: neither a loop over the rotations nor an any()/all() comprehension found")
 
@@ -321,7 +365,9 @@ def _run(rep, ctx):
 
     # range over all rotations + provenance
     sl = fl.slice(iter_expr, iter_at)
-    sliced = [s for e in sl["exprs"] for s in ast.walk(e) if isinstance(s, ast.Subscript) and isinstance(s.slice, ast.Slice)]
+    # any index other than a string key (["rotations"]) selects a part of the operation list: slices, masks, fancy indices
+    sliced = [s for e in sl["exprs"] for s in ast.walk(e) if isinstance(s, ast.Subscript)
+              and not (isinstance(s.slice, ast.Constant) and isinstance(s.slice.value, str))]
     if sliced:
         rep.violation("R15.2", "get_is_chiral iteration range", f"`{norm(sliced[0])}` restricts the scan to a part of the "
                       "operations", M.where(FQ, sliced[0]))
